@@ -331,8 +331,9 @@ func (c *Controller) resolveMatch(ls *linkState, hashBytes []byte, ms link.Mount
 		}
 	})
 
+	// all matching solicitations share one value: the stream has at most one owner
+	sms := link_solicit.NewSolicitMountedStream(ms)
 	for _, ss := range matches {
-		sms := link_solicit.NewSolicitMountedStream(ms)
 		if _, ok := ss.handler.AddValue(sms); ok {
 			ls.le.WithField("hash", hashHex).Debug("emitted SolicitMountedStream value")
 		}
